@@ -93,7 +93,10 @@ func c10World(t *testing.T, r *simcore.Run) any {
 		mode = "sampled"
 		for k := 0; k < c10PerRun; k++ {
 			c := mcase{onResp: tp.Bool(1, 2, "onresp")}
-			switch tp.Pick([]uint64{6, 4, 1, 1, 1, 2, 2, 3, 1, 2}, "kind") {
+			switch tp.Pick([]uint64{6, 4, 1, 1, 1, 2, 2, 3, 1, 2, 2}, "kind") {
+			case 10:
+				c.kind, c.onResp = "header-changed-genuine-behind", false
+				c.bit = tp.Intn(48*8, "hbit")
 			case 0:
 				c.kind, c.bit = "bit", tp.Intn(c10ReqLen*8, "bit")
 			case 1:
@@ -230,7 +233,7 @@ func c10World(t *testing.T, r *simcore.Run) any {
 				if g.Payload == nil {
 					continue
 				}
-				var mut []byte
+				var mut, trailing []byte
 				must := true
 				desc := ""
 				switch c.kind {
@@ -266,10 +269,25 @@ func c10World(t *testing.T, r *simcore.Run) any {
 				case "genuine":
 					mut = append([]byte(nil), g.Payload...)
 					desc = "request replayed unmodified"
+				case "header-changed-genuine-behind":
+					// the request with a changed NTP header, and the genuine request right behind it
+					// (over SCION: behind the end of the UDP datagram): what is answered must be
+					// what was authenticated
+					must, _ = c10MustReject(g.Payload, c.bit/8)
+					if !must {
+						continue
+					}
+					mut = flip(g.Payload, c.bit)
+					trailing = append([]byte(nil), g.Payload...)
+					desc = fmt.Sprintf("request header bit %d changed, the genuine request appended behind it", c.bit)
+					r.Probe("genuine-copy-behind-forged-request")
 				default:
 					continue
 				}
 				wrapped := tr.rewrap(gd, mut)
+				if trailing != nil {
+					wrapped = tr.rewrapTrailing(gd, mut, trailing)
+				}
 				if wrapped == nil {
 					continue
 				}
